@@ -47,6 +47,9 @@ DoSign ==
            deep == Has("deep") /\ ~exhausted /\ ~crash /\ Has("sig")
            newroot == IF deep /\ K.root = <<>> THEN CandidateRoot(S, K.I, e.sig, e.msg) ELSE K.root
        IN /\ Chk(/\ Has("res")
+                 \* the counter after the call (Debug view of the private field): advanced by exactly one on a live key,
+                 \* also when the RNG fails; untouched on an exhausted key
+                 /\ (Has("leaf") => e.leaf = (IF exhausted THEN q ELSE q + 1))
                  /\ IF exhausted THEN e.res = "none"
                     ELSE IF crash THEN e.res = "panic"
                     ELSE /\ e.res = "some" /\ Has("sig") /\ WellFormed(S, e.sig, q)
